@@ -810,18 +810,6 @@ func firstLines(s string, n int) string {
 	return strings.Join(l, "\n")
 }
 
-func fmtSamples(m map[string]float64) string {
-	var ks []string
-	for k, v := range m {
-		if math.IsNaN(v) {
-			v = -999
-		}
-		ks = append(ks, fmt.Sprintf("%s=%v", k, v))
-	}
-	sort.Strings(ks)
-	return strings.Join(ks, " ; ")
-}
-
 // c17CompareJSON checks the debug API rendering of one RA.
 func c17CompareJSON(ra *ndp.RouterAdvertisement, raw json.RawMessage) error {
 	var j struct {
@@ -980,4 +968,16 @@ func TestVerif_C17(t *testing.T) {
 	prop := c17Prop(t, k)
 	k.Regress(t, func(sub string, raw json.RawMessage) error { return verifkit.Decode(raw, prop) })
 	verifkit.Rapid(k, t, "configurations-x-lifecycle-x-probes", k.N(1500, 250000), c17Gen, prop)
+}
+
+func fmtSamples(m map[string]float64) string {
+	var ks []string
+	for k, v := range m {
+		if math.IsNaN(v) {
+			v = -999
+		}
+		ks = append(ks, fmt.Sprintf("%s=%v", k, v))
+	}
+	sort.Strings(ks)
+	return strings.Join(ks, " ; ")
 }
